@@ -17,7 +17,7 @@ PAIRS2D = [(nx, ny, kx, ky) for nx in range(1, 6) for ny in range(1, 6) for kx i
 
 
 def setup(ctx):
-    ctx.require("rhs1d", "solve1d", "rhs2d", "solve2d")
+    ctx.require("rhs1d", "solve1d", "rhs2d", "solve2d", "rhs2d-mixed", "solve2d-mixed")
 
 
 def _n1(ctx):
@@ -123,3 +123,70 @@ def shift2d(ctx, rng, idx):
         ctx.true("solve2d", same, "shift2d/solve-not-bit-identical/%s/%s" % (flux, "extrapol2d1" if first else "extrapol2dk"),
                  {"integrator": iname, "max diff": max(np.max(np.abs(roll2d(a, nx, ny, kx, ky) - b)) for a, b in zip(e1.data, e2.data))}, cls="solve2d")
     ctx.nontrivial("shift2d", nx, ny, kx, ky, flux, iname)
+
+
+MIXED = [(nx, ny, k, ax) for nx in range(1, 6) for ny in range(1, 6) for ax in (0, 1) for k in range(1, (nx if ax == 0 else ny))]
+
+
+def _n3(ctx):
+    return len(MIXED) * (1 if ctx.tier == "quick" else 30)
+
+
+@group(quick=_n3, thorough=_n3, exhaustive=True)
+def shift2d_mixed(ctx, rng, idx):
+    """periodic in ONE direction only (walls / uniform inlet-outlet / uniform dirichlet on the other pair): shifting along the
+    periodic direction must still commute with the operator and the solve; exhaustive nx,ny=1..5 x shifts x direction"""
+    nx, ny, k, ax = MIXED[idx % len(MIXED)]
+    lx, ly = float(np.round(rng.uniform(0.5, 3), 3)), float(np.round(rng.uniform(0.5, 3), 3))
+    m = fmesh2d.mesh2d(nx, ny, lx, ly)
+    gam = float(rng.choice([1.4, 5 / 3]))
+    model = euler.euler2d(gamma=gam)
+    n = nx * ny
+    rho0, p0 = float(10 ** rng.uniform(-0.5, 0.5)), float(10 ** rng.uniform(-0.5, 0.5))
+    rho = rho0 * rng.uniform(0.7, 1.4, n); p = p0 * rng.uniform(0.7, 1.4, n)
+    c = np.sqrt(gam * p0 / rho0)
+    V = rng.uniform(-0.8, 0.8, (2, n)) * c
+    per = ("left", "right") if ax == 0 else ("bottom", "top")
+    oth = ("bottom", "top") if ax == 0 else ("left", "right")
+    nfo = nx if ax == 0 else ny
+    def other_bc():
+        ty = str(rng.choice(["sym", "sym", "outsub", "outsup", "insub", "insup", "dirichlet"]))
+        d = {"type": ty}
+        if ty in ("insub", "insup"):
+            from .. import refs
+            pt, rtt = refs.totals(rho0, (0.4 if ty == "insub" else 1.6) * c, p0, gam)
+            d.update(ptot=float(pt), rttot=float(rtt))
+            if ty == "insup":
+                d["p"] = p0
+        if ty == "outsub":
+            d["p"] = p0 * float(rng.uniform(0.8, 1.2))
+        if ty == "dirichlet":        # uniform along the boundary (a shift-invariant condition)
+            d["prim"] = [np.full(nfo, rho0 * 1.1), np.vstack([np.full(nfo, 0.2 * c), np.full(nfo, -0.1 * c)]), np.full(nfo, p0 * 0.9)]
+        return d
+    bcl = {per[0]: {"type": "per"}, per[1]: {"type": "per"}, oth[0]: other_bc(), oth[1]: other_bc()}
+    kk = float(rng.choice([-1.0, 0.0, 1.0 / 3.0, 0.5, 1.0, np.round(rng.uniform(-1, 1), 2)]))
+    first = rng.random() < 0.25
+    flux = str(rng.choice(["centered", "hlle"]))
+    iname = str(rng.choice(gen.EXPLICIT))
+    cfl = float(rng.uniform(0.05, 0.3)); nstep = int(rng.integers(1, 5))
+    kx, ky = (k, 0) if ax == 0 else (0, k)
+    ctx.describe(nx=nx, ny=ny, shift_x=kx, shift_y=ky, periodic_pair=per, bc={t: {a: b for a, b in d.items() if a != "prim"} for t, d in bcl.items()}, lx=lx, ly=ly, gamma=gam,
+                 recon="extrapol2d1" if first else "extrapol2dk(%g)" % kk, flux=flux, integrator=iname, cfl=cfl, nstep=nstep, prim=[rho, V, p])
+    def run(prim):
+        num = xnum.extrapol2d1() if first else xnum.extrapol2dk(kk)
+        disc = md.fvm2d(model, m, num, bclist=bcl, numflux=flux)
+        f = ffield.fdata(model, m, model.prim2cons(prim))
+        r = [x.copy() for x in disc.rhs(f)]
+        e = gen.integ(iname)(m, disc).solve(f, cfl, stop={"maxit": nstep})[-1]
+        return r, e
+    r1, e1 = run([rho, V, p])
+    r2, e2 = run([roll2d(rho, nx, ny, kx, ky), roll2d(V, nx, ny, kx, ky), roll2d(p, nx, ny, kx, ky)])
+    if not (_finite(r1) and _finite(r2)):
+        raise core.Skip("nonfinite")
+    tag = "%s/%s/other-%s-%s" % (flux, "extrapol2d1" if first else "extrapol2dk", bcl[oth[0]]["type"], bcl[oth[1]]["type"])
+    same = all(np.array_equal(roll2d(a, nx, ny, kx, ky), b) for a, b in zip(r1, r2))
+    ctx.true("rhs2d-mixed", same, "shift2d-mixed/rhs-not-bit-identical/" + tag, {"max diff": max(np.max(np.abs(roll2d(a, nx, ny, kx, ky) - b)) for a, b in zip(r1, r2))}, cls="rhs2d-mixed")
+    if _finite(e1.data) and _finite(e2.data):
+        same = e1.time == e2.time and all(np.array_equal(roll2d(a, nx, ny, kx, ky), b) for a, b in zip(e1.data, e2.data))
+        ctx.true("solve2d-mixed", same, "shift2d-mixed/solve-not-bit-identical/" + tag, {"integrator": iname}, cls="solve2d-mixed")
+    ctx.nontrivial("shift2d-mixed", nx, ny, kx, ky, flux, iname, tag)
